@@ -29,6 +29,7 @@ type Mutex struct {
 	hb    uint32
 }
 
+//go:norace
 func (m *Mutex) touch(s *simrt.Sim) {
 	s.BkLock()
 	if m.gen != s.Gen() {
@@ -42,6 +43,7 @@ func (m *Mutex) touch(s *simrt.Sim) {
 	}
 }
 
+//go:norace
 func (m *Mutex) Lock() {
 	t := simrt.CurrentOrLazy()
 	if t == nil {
@@ -56,6 +58,7 @@ func (m *Mutex) Lock() {
 	atomic.LoadUint32(&m.hb)
 }
 
+//go:norace
 func (m *Mutex) TryLock() bool {
 	t := simrt.CurrentOrLazy()
 	if t == nil {
@@ -79,6 +82,7 @@ func (m *Mutex) TryLock() bool {
 	return ok
 }
 
+//go:norace
 func (m *Mutex) Unlock() {
 	t := simrt.CurrentOrLazy()
 	if t == nil {
@@ -111,6 +115,7 @@ type RWMutex struct {
 	hbR     uint32
 }
 
+//go:norace
 func (m *RWMutex) touch(s *simrt.Sim) {
 	s.BkLock()
 	if m.gen != s.Gen() {
@@ -125,6 +130,7 @@ func (m *RWMutex) touch(s *simrt.Sim) {
 	}
 }
 
+//go:norace
 func (m *RWMutex) Lock() {
 	t := simrt.CurrentOrLazy()
 	if t == nil {
@@ -140,6 +146,7 @@ func (m *RWMutex) Lock() {
 	atomic.LoadUint32(&m.hbR)
 }
 
+//go:norace
 func (m *RWMutex) Unlock() {
 	t := simrt.CurrentOrLazy()
 	if t == nil {
@@ -162,6 +169,7 @@ func (m *RWMutex) Unlock() {
 	t.Park(simrt.OpUnlock, m.id, nil, nil)
 }
 
+//go:norace
 func (m *RWMutex) RLock() {
 	t := simrt.CurrentOrLazy()
 	if t == nil {
@@ -176,6 +184,7 @@ func (m *RWMutex) RLock() {
 	atomic.LoadUint32(&m.hbW)
 }
 
+//go:norace
 func (m *RWMutex) RUnlock() {
 	t := simrt.CurrentOrLazy()
 	if t == nil {
@@ -200,9 +209,13 @@ func (m *RWMutex) RUnlock() {
 
 type rlocker RWMutex
 
-func (r *rlocker) Lock()   { (*RWMutex)(r).RLock() }
+//go:norace
+func (r *rlocker) Lock() { (*RWMutex)(r).RLock() }
+
+//go:norace
 func (r *rlocker) Unlock() { (*RWMutex)(r).RUnlock() }
 
+//go:norace
 func (m *RWMutex) RLocker() Locker { return (*rlocker)(m) }
 
 type condWaiter struct {
@@ -222,8 +235,10 @@ type Cond struct {
 	hb      uint32
 }
 
+//go:norace
 func NewCond(l Locker) *Cond { return &Cond{L: l} }
 
+//go:norace
 func (c *Cond) realCond() *sync.Cond {
 	c.realMu.Lock()
 	if c.real == nil {
@@ -234,6 +249,7 @@ func (c *Cond) realCond() *sync.Cond {
 	return r
 }
 
+//go:norace
 func (c *Cond) touch(s *simrt.Sim) {
 	s.BkLock()
 	if c.gen != s.Gen() {
@@ -247,6 +263,7 @@ func (c *Cond) touch(s *simrt.Sim) {
 	}
 }
 
+//go:norace
 func (c *Cond) Wait() {
 	t := simrt.CurrentOrLazy()
 	if t == nil {
@@ -268,6 +285,7 @@ func (c *Cond) Wait() {
 	c.L.Lock()
 }
 
+//go:norace
 func (c *Cond) Signal() {
 	t := simrt.CurrentOrLazy()
 	if t == nil {
@@ -288,6 +306,7 @@ func (c *Cond) Signal() {
 	s.BkUnlock()
 }
 
+//go:norace
 func (c *Cond) Broadcast() {
 	t := simrt.CurrentOrLazy()
 	if t == nil {
@@ -309,6 +328,8 @@ func (c *Cond) Broadcast() {
 }
 
 // Waiters reports how many tasks are parked in Wait (for lost-wake-up oracles).
+//
+//go:norace
 func (c *Cond) Waiters() int { return len(c.waiters) }
 
 // Once is sync.Once for simulated code. Uncontended use produces no sim op at
@@ -322,6 +343,7 @@ type Once struct {
 	running bool
 }
 
+//go:norace
 func (o *Once) Do(f func()) {
 	if atomic.LoadUint32(&o.done) == 1 {
 		return
